@@ -59,7 +59,26 @@ Fixpoint nsec2 (p : program2) : nat :=
 Definition refs_below2 (n : nat) (k : cls2) : bool := forallb (fun r => Nat.ltb r n) (refs2 k).
 
 Definition SetTre (cb t : nat) : step2 := S2Op (UOld (OSetTreasury cb t)).
-Definition CBank (t : option nat) : cls2 := COld (CCentralBank t).
+
+(** the two central-bank classes: CentralBank and GoldStandardCentralBank(initial_gold_stock) *)
+Inductive bkind := BPlain | BGold (stock : string).
+Definition bank (b : bkind) (t : option nat) : cls2 :=
+  match b with BPlain => COld (CCentralBank t) | BGold s => CGoldCB t s end.
+Definition CBank (t : option nat) : cls2 := bank BPlain t.
+
+(** is the class a central bank, and with which treasury? *)
+Definition bank_of (k : cls2) : option (bkind * option nat) :=
+  match k with
+  | COld (CCentralBank t) => Some (BPlain, t)
+  | CGoldCB t s => Some (BGold s, t)
+  | _ => None
+  end.
+
+Lemma bank_of_bank b t : bank_of (bank b t) = Some (b, t).
+Proof. destruct b; reflexivity. Qed.
+
+Lemma bank_of_inv k b t : bank_of k = Some (b, t) -> k = bank b t.
+Proof. destruct k as [c| |t0 s0| | |]; try discriminate; [destruct c; try discriminate|]; cbn; intros H; injection H as <- <-; reflexivity. Qed.
 
 (* ------------------------------------------------------------------ *)
 (** * Elementary moves *)
@@ -69,14 +88,14 @@ Inductive move2 : program2 -> program2 -> Prop :=
     refs_below2 (nsec2 pre) k1 = true -> refs_below2 (nsec2 pre) k2 = true ->
     move2 (pre ++ S2Sector ci c1 k1 :: S2Sector ci c2 k2 :: post)
           (pre ++ S2Sector ci c2 k2 :: S2Sector ci c1 k1 :: map (rn_step2 (tau (nsec2 pre))) post)
-| MFold2 pre ci c t post :
+| MFold2 pre ci c b t post :
     t < nsec2 pre ->
-    move2 (pre ++ S2Sector ci c (CBank None) :: SetTre (nsec2 pre) t :: post)
-          (pre ++ S2Sector ci c (CBank (Some t)) :: post)
-| MUnfold2 pre ci c t post :
+    move2 (pre ++ S2Sector ci c (bank b None) :: SetTre (nsec2 pre) t :: post)
+          (pre ++ S2Sector ci c (bank b (Some t)) :: post)
+| MUnfold2 pre ci c b t post :
     t < nsec2 pre ->
-    move2 (pre ++ S2Sector ci c (CBank (Some t)) :: post)
-          (pre ++ S2Sector ci c (CBank None) :: SetTre (nsec2 pre) t :: post)
+    move2 (pre ++ S2Sector ci c (bank b (Some t)) :: post)
+          (pre ++ S2Sector ci c (bank b None) :: SetTre (nsec2 pre) t :: post)
 | MOpSec2 pre cb t ci c k post :
     cb < nsec2 pre -> t < nsec2 pre ->
     move2 (pre ++ SetTre cb t :: S2Sector ci c k :: post)
@@ -105,10 +124,16 @@ Definition apply_at2 (m : mv) (n : nat) (rest : program2) : option program2 :=
   | VSwap, S2Sector ci c1 k1 :: S2Sector ci' c2 k2 :: post =>
       if Nat.eqb ci ci' && refs_below2 n k1 && refs_below2 n k2
       then Some (S2Sector ci c2 k2 :: S2Sector ci c1 k1 :: map (rn_step2 (tau n)) post) else None
-  | VFold, S2Sector ci c (COld (CCentralBank None)) :: S2Op (UOld (OSetTreasury cb t)) :: post =>
-      if Nat.eqb cb n && Nat.ltb t n then Some (S2Sector ci c (CBank (Some t)) :: post) else None
-  | VUnfold, S2Sector ci c (COld (CCentralBank (Some t))) :: post =>
-      if Nat.ltb t n then Some (S2Sector ci c (CBank None) :: SetTre n t :: post) else None
+  | VFold, S2Sector ci c k :: S2Op (UOld (OSetTreasury cb t)) :: post =>
+      match bank_of k with
+      | Some (b, None) => if Nat.eqb cb n && Nat.ltb t n then Some (S2Sector ci c (bank b (Some t)) :: post) else None
+      | _ => None
+      end
+  | VUnfold, S2Sector ci c k :: post =>
+      match bank_of k with
+      | Some (b, Some t) => if Nat.ltb t n then Some (S2Sector ci c (bank b None) :: SetTre n t :: post) else None
+      | _ => None
+      end
   | VOpSec, S2Op (UOld (OSetTreasury cb t)) :: S2Sector ci c k :: post =>
       if Nat.ltb cb n && Nat.ltb t n then Some (S2Sector ci c k :: SetTre cb t :: post) else None
   | VSecOp, S2Sector ci c k :: S2Op (UOld (OSetTreasury cb t)) :: post =>
@@ -148,8 +173,9 @@ Proof. induction a as [|x a IH]; simpl; [reflexivity|]. destruct x; simpl; rewri
 
 Lemma apply_at2_move m pre rest q : apply_at2 m (nsec2 pre) rest = Some q -> move2 (pre ++ rest) (pre ++ q).
 Proof.
-  destruct m; cbn [apply_at2]; intros H; destr_match H; subst; injection H as <-;
+  destruct m; cbn [apply_at2]; intros H; destr_match H; subst; try injection H as <-;
     repeat match goal with
+           | E : bank_of _ = Some (_, _) |- _ => apply bank_of_inv in E; subst
            | E : (_ && _)%bool = true |- _ => apply andb_true_iff in E; destruct E
            | E : Nat.eqb _ _ = true |- _ => apply Nat.eqb_eq in E; subst
            | E : Nat.ltb _ _ = true |- _ => apply Nat.ltb_lt in E
@@ -310,8 +336,12 @@ Definition align_one2 (j : nat) (y : step2) (cur : program2) : option program2 :
             match find_in_run2 (fun z => same_decl2 z y) (skipn j cur) with
             | None => None
             | Some d =>
-                let cur0 := match nth_error cur (j + d), k' with
-                            | Some (S2Sector _ _ (COld (CCentralBank (Some _)))), COld (CCentralBank None) => apply_move2 (VUnfold, j + d) cur
+                let cur0 := match nth_error cur (j + d), bank_of k' with
+                            | Some (S2Sector _ _ kx), Some (_, None) =>
+                                match bank_of kx with
+                                | Some (_, Some _) => apply_move2 (VUnfold, j + d) cur
+                                | _ => Some cur
+                                end
                             | _, _ => Some cur
                             end in
                 match cur0 with
@@ -320,15 +350,19 @@ Definition align_one2 (j : nat) (y : step2) (cur : program2) : option program2 :
                 match bring_left2 j d cur0 with
                 | None => None
                 | Some cur1 =>
-                    match nth_error cur1 j, k' with
-                    | Some (S2Sector _ _ (COld (CCentralBank None))), COld (CCentralBank (Some t)) =>
-                        let n := nsec2 (firstn j cur1) in
-                        match find_in_run2 (is_treasury_op2 n t) (skipn (S j) cur1) with
-                        | None => None
-                        | Some d2 => match bring_left2 (S j) d2 cur1 with
-                                     | Some cur2 => apply_move2 (VFold, j) cur2
-                                     | None => None
-                                     end
+                    match nth_error cur1 j, bank_of k' with
+                    | Some (S2Sector _ _ kx), Some (_, Some t) =>
+                        match bank_of kx with
+                        | Some (_, None) =>
+                            let n := nsec2 (firstn j cur1) in
+                            match find_in_run2 (is_treasury_op2 n t) (skipn (S j) cur1) with
+                            | None => None
+                            | Some d2 => match bring_left2 (S j) d2 cur1 with
+                                         | Some cur2 => apply_move2 (VFold, j) cur2
+                                         | None => None
+                                         end
+                            end
+                        | _ => Some cur1
                         end
                     | _, _ => Some cur1
                     end
